@@ -19,9 +19,10 @@ RULE = ("scenarios (channel futex/condvar reader x write mutex/single x capacity
         "wait/single/once x lock/single writer x capacity 2..8; array blocking queue capacity 1..4 x 1..2 consumers x "
         "1..3 producers; double buffer capacity 1..4 x 1..3 writers; synclock 2..4 threads) with message counts that force "
         "both empty and full blocking, run on the real code under the deterministic scheduler with seeded random schedules "
-        "(context-switch density 20/50/80 %, spurious condvar wake-ups 0/20/40 %, spurious weak-CAS failures 0/30 %) and "
+        "(context-switch density 20/50/80 %, spurious condvar wake-ups 0/20/40 %, spurious weak-CAS failures 0/30 %, futex waits "
+        "that return early -- EINTR or spurious -- 0/20/30 % for the channel futex reader and the ring) and "
         "with schedules produced by exploring the MODEL that park a sleeper between its check and its sleep while the "
-        "waker runs; every trace replayed on the extracted model; non-trivial = some thread really blocked (futex or "
+        "waker runs (some of them with early futex returns); every trace replayed on the extracted model; non-trivial = some thread really blocked (futex or "
         "condvar); distinct = distinct trace text")
 TRUSTED_BASE = [
     "modelled, not verified: sequentially consistent interleaving of the atomic operations; futex = atomic compare-and-block / "
@@ -38,13 +39,20 @@ EVIDENCE_NOTES = [
     "proved for every schedule and any number of threads (Properties_C03.v): X_no_deadlock and X_no_lost_wakeup for X = "
     "chan_futex, chan_cv, rb, abq, dbuf, synclock; dbuf_notify_one_suffices; two refutation theorems (futex wait on a "
     "re-loaded value; `if` instead of `while`) plus further vm_compute witnesses in C03/Variants.v",
+    "futex waits may return early (EINTR / spurious wake-up): schedule choices 2 / 3 of the would-block fwait step of the "
+    "channel futex reader and the ring models; all their theorems quantify over them; *_early_return_rechecks and "
+    "chan_futex_take_only_after_nonempty_check state that such a return neither gives up nor consumes.  The synclock model "
+    "is C04's (imported read-only) and has no such choice, so synclock scenarios run without fspur/fwake (its loop re-tries "
+    "the CAS after any return of the wait, which the C04 model takes only from a genuine wake-up or a changed word)",
     "'empty' / 'full' in the theorems are the code's own tests (write_cursor = IDX(read_cursor+1); cursor = reader position; "
     "cnt = 0 / capacity; back->cnt = 0).  That the ring's test means 'no unread message' needs the documented no-lapping "
     "usage and is the data-path invariant of C02 (Example ring_lapped_reader_sleeps shows a lapped reader going to sleep)",
     "abq_balanced_scripts_never_stuck / dbuf_balanced_scripts_never_stuck: with balanced scripts the 'somebody finished early' "
     "end states are unreachable (counting invariant over the remaining script lengths); the analogous statement for the two "
     "channel models and the ring (reader asks for exactly the number of accepted messages => never blocked at the end) is NOT "
-    "proved -- their theorems end in the legitimate state 'reader asleep on an empty conduit, writers finished'; liveness "
+    "proved: it is equivalent to 'reads done = writes done whenever the cursor test says empty', i.e. the exactly-once data-path "
+    "invariant of C01/C02 (unread count modulo capacity, the writer's stale read-cursor register under the write lock, no "
+    "lapping), which these protocol models deliberately do not carry -- their theorems end in the legitimate state 'reader asleep on an empty conduit, writers finished'; liveness "
     "under a fair scheduler is stated only in its safety form",
     "observation (C01 territory, not a lost wake-up): a channel of capacity 1 or 2 refuses every write (wpos == rpos from "
     "the start), so its reader waits for ever by construction; C03 scenarios use capacity >= 3",
@@ -145,7 +153,7 @@ def corpus_cases(ctx):
             continue
         for j, ln in enumerate(r["lines"]):
             if ln.startswith("modelsched "):
-                cases.append(_mk("guided-%s-%d" % (c.name[8:], j), c.lines[0], "list - " + ln[len("modelsched "):]))
+                cases.append(_mk("guided-%s-%d" % (c.name[8:], j), c.lines[0], "list " + ln[len("modelsched "):]))
     return cases
 
 
@@ -159,7 +167,10 @@ def generate(rng, tier):
             stick = r.choice([20, 50, 80])
             spur = r.choice([0, 30]) if kind == "slock" else 0
             cvspur = r.choice([0, 20, 40]) if kind in ("abq", "dbuf", "chanm") else 0
-            cases.append(_mk("%s-%d" % (kind, i), scen, "rand %d %d %d %d" % (r.below(1 << 30), stick, spur, cvspur)))
+            # futex waits that would block may return early (EINTR / spurious): channel futex reader, ring
+            fsp, fwk = (r.choice([(0, 0), (0, 0), (30, 0), (0, 30), (20, 20)]) if kind in ("chanf", "ring") else (0, 0))
+            cases.append(_mk("%s-%d" % (kind, i), scen, "rand %d %d %d %d %d %d" % (
+                r.below(1 << 30), stick, spur, cvspur, fsp, fwk)))
     return cases
 
 
@@ -168,9 +179,10 @@ def search(rng, diverging, tier):
     for i in range(4000):
         kind = rng.choice(KINDS)
         scen = _scenario(rng, kind)
-        out.append(_mk("search-%s-%d" % (kind, i), scen, "rand %d %d %d %d" % (
+        fsp, fwk = (rng.choice([(0, 0), (30, 0), (0, 30), (20, 20)]) if kind in ("chanf", "ring") else (0, 0))
+        out.append(_mk("search-%s-%d" % (kind, i), scen, "rand %d %d %d %d %d %d" % (
             rng.below(1 << 30), rng.choice([10, 30, 50, 80]), rng.choice([0, 30]) if kind == "slock" else 0,
-            rng.choice([0, 20, 50]) if kind in ("abq", "dbuf", "chanm") else 0)))
+            rng.choice([0, 20, 50]) if kind in ("abq", "dbuf", "chanm") else 0, fsp, fwk)))
     return out
 
 
@@ -456,11 +468,14 @@ def tally(dist, case, lines):
     dist[k] = dist.get(k, 0) + 1
     if case.lines[1].startswith("sched list"):
         dist["model_guided_schedules"] = dist.get("model_guided_schedules", 0) + 1
+        if case.lines[1].split()[2] != "-":
+            dist["model_guided_with_early_futex_return"] = dist.get("model_guided_with_early_futex_return", 0) + 1
     for ln in lines:
         if ln.startswith("E "):
             dist["events"] = dist.get("events", 0) + 1
             if " fwait " in ln:
-                key = "futex_sleeps" if ln.endswith(" 1") else "futex_wait_value_changed"
+                key = {"1": "futex_sleeps", "2": "futex_wait_interrupted", "3": "futex_wait_spurious_return"}.get(
+                    ln.split()[-1], "futex_wait_value_changed")
                 dist[key] = dist.get(key, 0) + 1
             elif " cvwait " in ln:
                 dist["condvar_sleeps"] = dist.get("condvar_sleeps", 0) + 1
